@@ -157,7 +157,7 @@ def build_jobs(tier, mm):
     rng = core.Rng(core.seed(), 16)
     jobs = []
     n_inputs = 2 if tier == "quick" else 12
-    shapes = list(l6.SHAPES)
+    shapes = list(l6.SHAPES) + ["twins"]      # twins: equal-instant purchases on rows 9 / 10 (valid input; not used by C17's permutations)
     k = 0
     for c in l6.COUNTRIES:
         for m in [None] + mm[c]["methods"]:
